@@ -4,6 +4,7 @@ package control
 
 import (
 	"context"
+	"io"
 	"net"
 	"net/netip"
 	"time"
@@ -252,4 +253,100 @@ func Verif_C09_singleflight() {
 		vs.Assert("waiters of one resolution get separate reply messages", ws[0].msgs[0] != ws[1].msgs[0] && ws[0].msgs[0] != shared && ws[1].msgs[0] != shared)
 	}
 	vs.Assert("at most one upstream resolution per waiter, one when they coincide", resolutions >= 1 && resolutions <= 2)
+}
+
+// ---- pipelined TCP upstream: a reply reaches only the request whose ID it carries ----
+
+type c09Stream struct {
+	in     chan []byte // bytes the upstream sends, in arbitrary chunks
+	rest   []byte
+	frames [][]byte // frames dae wrote (length prefix stripped)
+	closed bool
+	wake   chan struct{}
+}
+
+func (c *c09Stream) Read(p []byte) (int, error) {
+	if len(c.rest) == 0 {
+		select {
+		case b, ok := <-c.in:
+			if !ok {
+				return 0, io.EOF
+			}
+			c.rest = b
+		case <-c.wake:
+			return 0, io.ErrClosedPipe
+		}
+	}
+	n := copy(p, c.rest)
+	c.rest = c.rest[n:]
+	return n, nil
+}
+func (c *c09Stream) Write(p []byte) (int, error) {
+	c.frames = append(c.frames, append([]byte{}, p[2:]...))
+	return len(p), nil
+}
+func (c *c09Stream) Close() error {
+	if !c.closed {
+		c.closed = true
+		close(c.wake)
+	}
+	return nil
+}
+func (c *c09Stream) SetDeadline(t time.Time) error      { return nil }
+func (c *c09Stream) SetReadDeadline(t time.Time) error  { return nil }
+func (c *c09Stream) SetWriteDeadline(t time.Time) error { return nil }
+
+func c09Frame(id uint16, name string) []byte {
+	b := c09Answer(id, name)
+	return append([]byte{byte(len(b) >> 8), byte(len(b))}, b...)
+}
+
+// Verif_C09_pipelined: two queries share one pipelined TCP upstream connection. The upstream first
+// sends a reply under an arbitrary transaction ID that is neither query's (a late answer to a query
+// long gone, garbage, an ID the connection never issued), then the two genuine replies in either
+// order: each query gets exactly the reply sent under its own ID; the stray reply reaches nobody.
+func Verif_C09_pipelined() {
+	vs.Schedules(0)
+	st := &c09Stream{in: make(chan []byte, 8), wake: make(chan struct{})}
+	pc := newPipelinedConn(st)
+	names := []string{"a.example.", "b.example."}
+	var got [2]*dnsmessage.Msg
+	var errs [2]error
+	for i := 0; i < 2; i++ {
+		i := i
+		go func() {
+			q := new(dnsmessage.Msg)
+			q.Question = []dnsmessage.Question{{Name: names[i], Qtype: dnsmessage.TypeA, Qclass: dnsmessage.ClassINET}}
+			data, _ := q.Pack()
+			got[i], errs[i] = pc.RoundTrip(context.Background(), data)
+		}()
+	}
+	vs.Join() // both requests are on the wire, both waiting
+	vs.Assert("both requests were written", len(st.frames) == 2)
+	ids := [2]uint16{}
+	for _, f := range st.frames {
+		m := new(dnsmessage.Msg)
+		if m.Unpack(f) != nil || len(m.Question) != 1 {
+			vs.Fail("request frame unreadable")
+		}
+		for i := range names {
+			if m.Question[0].Name == names[i] {
+				ids[i] = m.Id
+			}
+		}
+	}
+	vs.Assert("in-flight requests carry different IDs", ids[0] != ids[1])
+	// the stray ID: one the connection never issued - among them the two that differ from a genuine
+	// ID only above the 12 bits the pending table is indexed by
+	stray := []uint16{ids[0] + dnsPipelineMaxIDs, ids[1] + dnsPipelineMaxIDs, 7, dnsPipelineMaxIDs - 1, 65535}[vs.Choice("stray.id", 5)]
+	vs.Assume(stray != ids[0] && stray != ids[1])
+	st.in <- c09Frame(stray, "evil.example.")
+	first := vs.Choice("genuineOrder", 2)
+	st.in <- c09Frame(ids[first], names[first])
+	st.in <- c09Frame(ids[1-first], names[1-first])
+	vs.Join()
+	for i := range names {
+		ok := errs[i] == nil && got[i] != nil && len(got[i].Question) == 1 && got[i].Question[0].Name == names[i]
+		vs.Assert("each query gets the reply sent under its own ID, never the stray one", ok)
+	}
 }
